@@ -428,7 +428,21 @@ def r7(ctx):
     sl = [n for n in walk_shallow(dec) if isinstance(n, ast.Subscript) and isinstance(n.slice, ast.Slice) and norm(n.value) == "data"]
     ok = len(sl) == 1 and sl[0].slice.lower is None and norm(sl[0].slice.upper) == "-unused"
     ctx.check("BitString.decode:drops-unused", ok, where(m, dec), "the decoder must drop exactly the declared unused bits from the end")
+    # data[:-0] is the empty list: with no unused bits the data must be kept whole
+    got = {}
+    for st_ in [s_ for t_, s_ in stores_in(dec) if is_self_attr(t_, "value")]:
+        for u in (0, 1, 7):
+            if evb.may_hold(facts_at(st_), {"unused": u}):
+                got.setdefault(u, set()).add(norm(st_.value))
+    ctx.check("BitString.decode:zero-unused-keeps-all", got.get(0) == {"data"} and got.get(1) == {"data[:-unused]"} and got.get(7) == {"data[:-unused]"}, where(m, dec),
+              "with an unused-bit count of 0 every bit must be kept (data[:-0] is empty): stores per unused count %r" % {k: sorted(v) for k, v in got.items()})
     # bit order msb first on both sides
     sh_e = [n for n in walk_shallow(enc) if isinstance(n, ast.BinOp) and isinstance(n.op, ast.LShift) and "7 - " in norm(n.right)]
     sh_d = [n for n in walk_shallow(dec) if isinstance(n, ast.BinOp) and isinstance(n.op, ast.LShift) and "7 - " in norm(n.right)]
     ctx.check("BitString:msb-first", len(sh_e) == 1 and len(sh_d) == 1, where(m, b.node), "bit i of each octet is 1 << (7 - i) on both sides")
+
+
+@rule("C01.R8", "the tag header that carries every primitive (length escapes, extended numbers) follows clause 20.2.1 on both sides", floor=8, engines="E4 (shared with C02.R1)")
+def r8(ctx):
+    from . import c02
+    c02.r1(ctx)
